@@ -173,7 +173,9 @@ Extend(sm, c, decls, e) ==
      \/ \E i \in 1..Len(decls) :
           \/ decls[i].s = {}
           \* (the minimum lifetime counts from activation, so it cannot be violated by an extension)
+          \* (a sector whose expiration epoch has passed but whose deadline has not yet closed cannot be extended)
           \/ \E n \in decls[i].s : St(sm, n) # "active" \/ decls[i].exp < sm.sec[n].exp \/ decls[i].exp - e > MaxLife
+                                     \/ sm.sec[n].exp < e
   THEN Fail(sm) ELSE [ok |-> TRUE, SM |-> ExtFold(sm, decls, 1)]
 
 -----------------------------------------------------------------------------
